@@ -36,7 +36,7 @@ def rand_rf(R, maxbits=6, elo=-6, ehi=6, s=None):
 
 def rand_ctx(R, fams=None, stochastic=False):
     """random small context descriptor (deterministic rounding unless stochastic)"""
-    fams = fams or ['mp', 'mps', 'mpb', 'ef', 'ieee', 'mpfix', 'mpbfix', 'fixed', 'smfixed']
+    fams = fams or ['mp', 'mps', 'mpb', 'ef', 'ieee', 'mpfix', 'mpbfix', 'fixed', 'smfixed', 'exp']
     f = R.choice(fams)
     rm = R.choice(RMS)
     k = 0
@@ -79,6 +79,9 @@ def rand_ctx(R, fams=None, stochastic=False):
         d.update(signed=signed, scale=R.randint(-4, 3), nbits=R.randint(2 if signed else 1, 6), ov=R.choice(['overflow', 'saturate', 'wrap', 'assert']), nv=None, iv=None)
     elif f == 'smfixed':
         d.update(scale=R.randint(-4, 3), nbits=R.randint(2, 6), ov=R.choice(['overflow', 'saturate', 'wrap', 'assert']), nv=None, iv=None)
+    elif f == 'exp':
+        d.update(nbits=R.randint(1, 5), eoff=R.randint(-3, 3), ov=R.choice(['overflow', 'saturate']), iv=None)
+        del d['k']
     return d
 
 def add_substitutes(R, d):
@@ -100,6 +103,8 @@ def breakpoints(R, d, count=12):
             pts.add(v + t * g)
         pts.add(v + g / 2 + tiny); pts.add(v + g / 2 - tiny); pts.add(v + tiny); pts.add(v + g - tiny)
         pts.add(v + g / 2 + g / 3 / (1 << R.randint(1, 30)))   # non-dyadic
+        for fr in (Fraction(1, 3), Fraction(2, 5), Fraction(5, 7), Fraction(1, 10)):   # non-dyadic positions inside the gap
+            if R.random() < 0.5: pts.add(v + fr * g)
     for _ in range(count):
         # a random positive magnitude on the format's grid
         if fmt.p is not None:
@@ -116,12 +121,15 @@ def breakpoints(R, d, count=12):
             v = Fraction(c) * Fraction(2) ** u
         else:
             u = (fmt.nmin + 1) if fmt.nmin is not None else R.randint(-5, 5)
-            c = R.randint(0, 40)
+            c = R.choice([0, 1, 1, 2, 3, R.randint(0, 40)])
             if fmt.pos is not None and R.random() < 0.5:
                 c = int(fmt.pos / Fraction(2) ** u) + R.randint(-2, 2)
                 c = max(c, 0)
             v = Fraction(c) * Fraction(2) ** u
         around(v, u)
+    if getattr(fmt, 'exp_min', None) is not None:
+        for m in (fmt.exp_min, fmt.exp_min / 2, fmt.exp_min * 2):
+            around(m, floor_log2(m)); around(m / 2, floor_log2(m) - 1)
     if fmt.pos is not None:
         for m in (fmt.pos, -fmt.neg if fmt.neg is not None else fmt.pos):
             if m > 0:
